@@ -47,6 +47,8 @@ for d in sorted(glob.glob(f'{V}/seeded/C*-*')):
         okv = val.get('applies') and val.get('builds') and val.get('tests_pass_like_baseline') and val.get('demo_fails_with_patch') and val.get('demo_passes_without_patch')
         v = 'yes' if okv else ('NO: ' + (val.get('error') or ', '.join(k for k in ('applies', 'builds', 'tests_pass_like_baseline', 'demo_fails_with_patch', 'demo_passes_without_patch') if not val.get(k))))[:80]
         det = ', '.join(sorted(val.get('detected_by', {}))) or '— (missed)'
+    if os.path.exists(d + '/NOTE.txt'):
+        v += ' (' + open(d + '/NOTE.txt').read().strip().replace('|', '/')[:400] + ')'
     out.append(f'| {sid} | {meta.get("property", sid[:3])} | {summ} | {v} | {det} |')
 out.append('')
 out.append('Reverts of the `fix:` commits (each is `git diff <fix> <fix>~1`, kept under `/verif/seeded/reverts/`): '
